@@ -250,6 +250,12 @@ class Ctx:
         self.extra = {}
         self.checker_cmds = []
         self.known = load_known(prop)
+        import glob
+        for f in glob.glob(os.path.join(REPLAY_DIR, f'{prop}_*.json')):
+            try:
+                os.remove(f)
+            except OSError:
+                pass
         self.known_hit = {}
 
     # -- sizes
